@@ -6,6 +6,7 @@ import (
 	"context"
 	"encoding/json"
 	"fmt"
+	apimeta "k8s.io/apimachinery/pkg/api/meta"
 	"runtime/debug"
 	"sort"
 	"strings"
@@ -425,11 +426,30 @@ func (w *World) finishReconcile(c *Controller, k types.NamespacedName, out *Outc
 	if !w.Concurrent {
 		w.Store.SetRid(c.Actor, 0)
 		// cache-alias monitor: objects obtained from no-deep-copy lists must not have been mutated
+		// The recorded addresses are slots of the lists' own Items slices. Re-ordering such a slice (sort.Slice) is
+		// harmless - the slice is the caller's - so a slot is judged by the object that sits in it now: its content must
+		// be one of the contents handed out for an object of that name.
+		handed := map[string]map[string]bool{}
+		for _, a := range c.alias {
+			k := a.Key.Kind + ":" + a.Key.NS + "/" + a.Key.Name
+			if handed[k] == nil {
+				handed[k] = map[string]bool{}
+			}
+			handed[k][a.JSON] = true
+		}
 		for _, a := range c.alias {
 			b, _ := json.Marshal(a.Obj)
-			if string(b) != a.JSON {
-				out.AliasMutations = append(out.AliasMutations, a.Key.String())
+			if string(b) == a.JSON {
+				continue
 			}
+			now := a.Key
+			if acc, err := apimeta.Accessor(a.Obj); err == nil {
+				now.NS, now.Name = acc.GetNamespace(), acc.GetName()
+			}
+			if handed[now.Kind+":"+now.NS+"/"+now.Name][string(b)] {
+				continue // another element of the same list was moved into this slot
+			}
+			out.AliasMutations = append(out.AliasMutations, a.Key.String())
 		}
 		if len(out.AliasMutations) > 0 {
 			w.AliasViolations = append(w.AliasViolations, fmt.Sprintf("%s reconcile %s mutated shared cache objects %v", c.Name, k, out.AliasMutations))
